@@ -2,6 +2,7 @@ package regclient
 
 import (
 	"archive/tar"
+	"bytes"
 	"cmp"
 	"compress/gzip"
 	"context"
@@ -1514,6 +1515,14 @@ func (rc *RegClient) imageImportOCIHandleManifest(ctx context.Context, r ref.Ref
 				if err != nil {
 					return err
 				}
+				// the tar entry has been read, blobs are pushed from the buffered content
+				importBlob := func() error {
+					if _, err := rc.BlobHead(ctx, r, d); err == nil {
+						return nil
+					}
+					_, err := rc.BlobPut(ctx, r, d, bytes.NewReader(b))
+					return err
+				}
 				switch d.MediaType {
 				case mediatype.Docker1Manifest, mediatype.Docker1ManifestSigned,
 					mediatype.Docker2Manifest, mediatype.Docker2ManifestList,
@@ -1529,14 +1538,14 @@ func (rc *RegClient) imageImportOCIHandleManifest(ctx context.Context, r ref.Ref
 					mediatype.OCI1Layer, mediatype.OCI1LayerGzip, mediatype.OCI1LayerZstd,
 					mediatype.BuildkitCacheConfig:
 					// known blob media types
-					return rc.imageImportBlob(ctx, r, d, trd)
+					return importBlob()
 				default:
 					// attempt manifest import, fall back to blob import
 					md, err := manifest.New(manifest.WithDesc(d), manifest.WithRaw(b))
 					if err == nil {
 						return rc.imageImportOCIHandleManifest(ctx, r, md, trd, true, child)
 					}
-					return rc.imageImportBlob(ctx, r, d, trd)
+					return importBlob()
 				}
 			}
 		}
